@@ -3453,10 +3453,11 @@ class SetInstance(object):
             attr.cached_count_sql = sql, adapter
         else: sql, adapter = cached_sql
         arguments = adapter(obj._get_raw_pkval_())
-        with cache.flush_disabled():
-            cursor = database._exec_sql(sql, arguments)
+        # like every other query, after a flush: a pending change may be unknown to this collection (the reference of an
+        # item whose row is not loaded was reassigned), so the database count cannot be corrected by added / removed alone
+        cursor = database._exec_sql(sql, arguments)
         setdata.count = cursor.fetchone()[0]
-        if setdata.added: setdata.count += len(setdata.added)
+        if setdata.added: setdata.count += len(setdata.added)      # only inside flush_disabled(): nothing was flushed
         if setdata.removed: setdata.count -= len(setdata.removed)
         return setdata.count
     @cut_traceback
